@@ -11,6 +11,8 @@ CHECKS = {
             {"name": "TestC05Soup", "checks": [4000, 30000], "shards": [2, 16], "floor": 0.6},
             {"name": "TestC05Shapes", "enum": True},
             {"name": "TestC05Blobs", "enum": True},
+            {"name": "FuzzParseRender", "fuzz": True, "fuzztime": [0, 150]},
+            {"name": "FuzzDeserialize", "fuzz": True, "fuzztime": [0, 60]},
             K,
         ],
         "assumptions": ["absence of panics is only established on generated paths", "self-referential templates, panicking user callbacks and resource bombs that terminate (huge ranges, huge exponents) are outside the guarantee and not generated"],
@@ -58,6 +60,7 @@ CHECKS = {
             {"name": "TestC16RoundTrip", "checks": [1500, 8000], "shards": [1, 8], "floor": 0.5},
             {"name": "TestC16Render", "checks": [1500, 8000], "shards": [2, 16], "floor": 0.7},
             {"name": "TestC16Files", "checks": [300, 2000], "shards": [1, 8], "floor": 0.5},
+            {"name": "FuzzCompiledRoundTrip", "fuzz": True, "fuzztime": [0, 60]},
             K,
         ],
         "assumptions": ["CompileTime is taken from the clock at compile time and is only compared across serialise/deserialise, never with an expected value"],
@@ -165,6 +168,7 @@ CHECKS = {
         "tests": [
             {"name": "TestC04Text", "checks": [4000, 20000], "shards": [2, 16], "floor": 0.7},
             {"name": "TestC04Bytes", "enum": True},
+            {"name": "FuzzLiteralText", "fuzz": True, "fuzztime": [0, 120]},
             K,
         ],
         "assumptions": ["text directly before a tag never ends in '{' or '\\' and no text contains an opening delimiter (the property does not say how '{{{' or '\\{{' read)"],
